@@ -142,7 +142,7 @@ func unmarshalList(dec *msgpack.Decoder, ety cty.Type, path cty.Path) (cty.Value
 		return cty.ListValEmpty(ety), nil
 	}
 
-	vals := make([]cty.Value, 0, length)
+	vals := make([]cty.Value, 0, preallocLen(length))
 	path = append(path, nil)
 	for i := 0; i < length; i++ {
 		path[len(path)-1] = cty.IndexStep{
@@ -180,7 +180,7 @@ func unmarshalSet(dec *msgpack.Decoder, ety cty.Type, path cty.Path) (cty.Value,
 		return cty.SetValEmpty(ety), nil
 	}
 
-	vals := make([]cty.Value, 0, length)
+	vals := make([]cty.Value, 0, preallocLen(length))
 	path = append(path, nil)
 	for i := 0; i < length; i++ {
 		path[len(path)-1] = cty.IndexStep{
@@ -218,7 +218,7 @@ func unmarshalMap(dec *msgpack.Decoder, ety cty.Type, path cty.Path) (cty.Value,
 		return cty.MapValEmpty(ety), nil
 	}
 
-	vals := make(map[string]cty.Value, length)
+	vals := make(map[string]cty.Value, preallocLen(length))
 	path = append(path, nil)
 	for i := 0; i < length; i++ {
 		key, err := dec.DecodeString()
@@ -351,4 +351,18 @@ func unmarshalDynamic(dec *msgpack.Decoder, path cty.Path) (cty.Value, error) {
 	}
 
 	return unmarshal(dec, ty, path)
+}
+
+// maxPreallocLen is the largest number of elements we will reserve room for
+// based only on a length header in the input. The header is not trustworthy:
+// a five-byte array header can claim four billion elements. Collections that
+// really are longer than this still decode, with their storage growing as
+// the elements actually arrive.
+const maxPreallocLen = 256
+
+func preallocLen(length int) int {
+	if length > maxPreallocLen {
+		return maxPreallocLen
+	}
+	return length
 }
